@@ -48,7 +48,7 @@ func genC18(t *rapid.T, thorough bool) C18Case {
 	case "foreach":
 		n := rapid.IntRange(0, 12).Draw(t, "nwords")
 		for i := 0; i < n; i++ {
-			c.Words = append(c.Words, gen.B(rapid.SliceOfN(rapid.SampledFrom([]byte("abc")), 1, 5).Draw(t, "word")))
+			c.Words = append(c.Words, gen.B(rapid.SliceOfN(rapid.SampledFrom([]byte("abc\x00\xff\x80")), 1, 5).Draw(t, "word")))
 		}
 		if rapid.IntRange(0, 5).Draw(t, "longWord") == 3 {
 			ln := rapid.SampledFrom([]int{16, 17, 32, 33, 64, 65, 130}).Draw(t, "longLen")
@@ -324,6 +324,23 @@ func exhaustiveC18(thorough bool, emit func(C18Case) bool) {
 		if !gen.AllShapes(n, func(p []int) bool {
 			return emit(C18Case{Iter: "preorder", Tree: gen.TreeSpec{Parents: p}}) && emit(C18Case{Iter: "postorder", Tree: gen.TreeSpec{Parents: p}})
 		}) {
+			return
+		}
+	}
+	// tries with binary keys and with keys longer than any fixed-size stack
+	for _, ws := range [][]string{{"\xff"}, {"a\xff", "a\x00", "ab"}, {"\x00", "\xff", "\xff\xff", "\xfe"}, {"\xffa", "\xffb", "\x00\xff"}} {
+		var words []gen.B
+		for _, w := range ws {
+			words = append(words, gen.B(w))
+		}
+		if !emit(C18Case{Iter: "foreach", Words: words}) {
+			return
+		}
+	}
+	for _, ln := range []int{15, 16, 17, 31, 32, 33, 64, 65, 130, 300} {
+		long := bytes.Repeat([]byte("ab"), ln/2+1)[:ln]
+		words := []gen.B{gen.B(long), append(gen.B(bytes.Clone(long[:ln-1])), 'z'), append(gen.B(bytes.Clone(long[:ln/2])), 'y'), gen.B("b"), append(gen.B(bytes.Clone(long)), 'q')}
+		if !emit(C18Case{Iter: "foreach", Words: words}) {
 			return
 		}
 	}
